@@ -80,20 +80,53 @@ fn run_hist(h: &Hist) -> Outcome {
     let mut steps_coq = vec![];
     let mut steps = vec![];
     let mut paid_something = false;
+    // ---- the harness's own ledger of what was set: never read back from the splits contract
+    let mut ledger_admin: Option<String> = h.admin.clone();
+    let mut ledger_members: BTreeMap<String, u64> = h.members.iter().map(|(a, x)| (resolve(a, &me), *x)).collect();
+    let ledger_group = w.group.to_string();
     for (i, op) in h.ops.iter().enumerate() {
+        // a migration's stored cw2 info is written by the harness before the step proper
+        let mut cw2_now = (String::new(), String::new());
+        let op_run = match op {
+            Op::Migrate { who, stored } => {
+                if let Some((n, ver)) = stored {
+                    crate::w_migrate::set_cw2(&mut w.app, &w.splits.clone(), n, ver);
+                }
+                cw2_now = crate::w_migrate::get_cw2(&w.app, &w.splits);
+                Op::Migrate { who: who.clone(), stored: None }
+            }
+            other => other.clone(),
+        };
         // ---- before
+        let raw_before = crate::w_migrate::raw_storage(&w.app, &w.splits);
         let before = snapshot(&w, &accounts);
         let dig_s = chain::storage_digest(&w.app, &w.splits);
         let dig_g = chain::storage_digest(&w.app, &w.group);
-        let members_before = w.group_members();
-        let admin_before = w.splits_admin();
+        let members_before: Vec<(String, u64)> = ledger_members.iter().map(|(a, x)| (a.clone(), *x)).collect();
+        assert_eq!(members_before, w.group_members(), "harness ledger of the group differs from the cw4 group it drives");
+        let admin_before = ledger_admin.clone();
         let handler = match op {
             Op::Distribute { sender, denoms } => Some(w.handler_distribute(&resolve(sender, &me), denoms)),
             _ => None,
         };
         // ---- the step
-        let r = w.apply(op);
+        let r = w.apply(&op_run);
         let ok = r.is_ok();
+        // ---- ledger: what the accepted operation set, by the rules of cw4 / the admin hand-over
+        match op {
+            Op::UpdateMembers { sender, adds, rems } if ok && Some(resolve(sender, &me)) == h.gadmin => {
+                for (a, x) in adds {
+                    ledger_members.insert(resolve(a, &me), *x);
+                }
+                for a in rems {
+                    ledger_members.remove(&resolve(a, &me));
+                }
+            }
+            Op::UpdateAdmin { sender, new_admin } if ok && Some(resolve(sender, &me)) == ledger_admin => {
+                ledger_admin = new_admin.clone();
+            }
+            _ => {}
+        }
         // ---- after
         let after = snapshot(&w, &accounts);
         let page = w.splits_page();
@@ -102,6 +135,37 @@ fn run_hist(h: &Hist) -> Outcome {
 
         // ---- monitors (property text; documented numbers; nothing shared with the model)
         let mut v = |key: &str, what: String| viol.push((format!("C15:{}", key), format!("step {} {:?}: {}", i, op, what)));
+        // whatever happened, the contract must still say what the ledger says
+        if admin_after != ledger_admin {
+            v("admin-differs-from-ledger", format!("splits Admin{{}} answers {:?}, the admin that was set is {:?}", admin_after, ledger_admin));
+        }
+        let group_after = w.splits_group();
+        if group_after.as_deref() != Some(ledger_group.as_str()) {
+            v("group-differs-from-ledger", format!("splits Group{{}} answers {:?}, the group it was given is {}", group_after, ledger_group));
+        }
+        let ledger_page: Vec<(String, u64)> = ledger_members.iter().take(30).map(|(a, x)| (a.clone(), *x)).collect();
+        if page != ledger_page {
+            v("members-differ-from-ledger", format!("splits ListMembers answers {:?}, the group holds {:?}", page, ledger_page));
+        }
+        if let Op::Migrate { who, .. } = op {
+            // a migration moves no funds and touches neither the group reference nor the admin
+            if before != after {
+                v("migrate-moved-coins", format!("balances changed during a migration by {}", who));
+            }
+            let raw_after = crate::w_migrate::raw_storage(&w.app, &w.splits);
+            let moved: Vec<String> = raw_before
+                .keys()
+                .chain(raw_after.keys())
+                .filter(|k| raw_before.get(*k) != raw_after.get(*k) && k.as_slice() != b"contract_info")
+                .map(|k| String::from_utf8_lossy(k).to_string())
+                .collect();
+            if !moved.is_empty() {
+                v("migrate-changed-state", format!("storage keys {:?} changed during a migration", moved));
+            }
+            if ok && resolve(who, &me) != WASM_ADMIN {
+                v("migrate-by-non-admin", format!("{} is not the contract's wasm admin", who));
+            }
+        }
         if !ok {
             if before != after {
                 v("rejected-but-coins-moved", "a refused call changed balances".into());
@@ -213,16 +277,11 @@ fn run_hist(h: &Hist) -> Outcome {
         let bals = coq_list(
             &after.iter().filter(|((_, d), _)| used.contains(d)).map(|((a, d), x)| format!("({}, {}, {})", addr_id(a), denom_id(*d), x)).collect::<Vec<_>>(),
         );
-        steps_coq.push(format!(
-            "({}, mkObs {} {} {} {} {} {})",
-            coq_op(op),
-            coq_bool(ok),
-            msgs,
-            bals,
-            coq_members(&page),
-            total,
-            coq_opt_addr(&admin_after)
-        ));
+        let obs = format!("(mkObs {} {} {} {} {} {})", coq_bool(ok), msgs, bals, coq_members(&page), total, coq_opt_addr(&admin_after));
+        steps_coq.push(match op {
+            Op::Migrate { who, .. } => format!("SMig {} {} {} {}", addr_id(who), coq_string(&cw2_now.0), coq_string(&cw2_now.1), obs),
+            _ => format!("SOp ({}) {}", coq_op(op), obs),
+        });
         steps.push(StepOut {
             kind: match op {
                 Op::Deposit { .. } => "deposit",
@@ -230,14 +289,16 @@ fn run_hist(h: &Hist) -> Outcome {
                 Op::UpdateAdmin { .. } => "update_admin",
                 Op::Distribute { denoms: Some(_), .. } => "distribute_explicit",
                 Op::Distribute { denoms: None, .. } => "distribute_all",
+                Op::Migrate { .. } => "migrate",
             },
             ok,
         });
     }
     Outcome {
         coq: format!(
-            "CHist {} {} {} {} {}",
+            "CHistM {} {} {} {} {} {}",
             SELF_ID,
+            addr_id(WASM_ADMIN),
             coq_opt_addr(&h.admin),
             coq_opt_addr(&h.gadmin),
             coq_members(&h.members),
@@ -247,6 +308,10 @@ fn run_hist(h: &Hist) -> Outcome {
         steps,
         paid_something,
     }
+}
+
+fn coq_string(s: &str) -> String {
+    format!("\"{}\"%string", s.replace('"', "\"\""))
 }
 
 fn run_case(c: &Case) -> Outcome {
@@ -295,6 +360,94 @@ fn hist(mode: Mode, admin: Option<String>, members: Vec<(String, u64)>, ops: Vec
 }
 fn total(ms: &[(String, u64)]) -> u128 {
     ms.iter().map(|(_, w)| *w as u128).sum()
+}
+
+
+/// the workspace version of the tree under test (splits uses `version.workspace = true`)
+fn workspace_version() -> String {
+    let repo = std::env::var("VERIF_REPO").unwrap_or_else(|_| "/repo".to_string());
+    let txt = std::fs::read_to_string(format!("{}/Cargo.toml", repo)).expect("workspace Cargo.toml");
+    let mut in_pkg = false;
+    for l in txt.lines() {
+        let t = l.trim();
+        if t.starts_with('[') {
+            in_pkg = t == "[workspace.package]";
+        } else if in_pkg && t.starts_with("version") {
+            return t.split('"').nth(1).expect("version string").to_string();
+        }
+    }
+    panic!("workspace version not found")
+}
+const SPLITS_NAME: &str = "crates.io:sg-splits";
+fn migr(who: &str, stored: Option<(&str, &str)>) -> Op {
+    Op::Migrate { who: who.to_string(), stored: stored.map(|(n, v)| (n.to_string(), v.to_string())) }
+}
+/// stored cw2 pairs for a migration: accepted ones (older, equal) and refused ones
+fn stored_pool(code: &str) -> Vec<Option<(String, String)>> {
+    let sv = semver::Version::parse(code).expect("code version");
+    let own = |v: String| Some((SPLITS_NAME.to_string(), v));
+    vec![
+        None,
+        own(code.to_string()),
+        own(format!("{}.{}.{}", sv.major, sv.minor.saturating_sub(1), 9)),
+        own("3.9.0".to_string()),
+        own("0.1.0".to_string()),
+        own("2.4.0".to_string()),
+        own(format!("{}.{}.{}", sv.major, sv.minor, sv.patch + 1)), // refused: newer
+        own(format!("{}.0.0", sv.major + 1)),                       // refused: newer
+        own("3.16".to_string()),                                     // refused: not a version
+        Some(("crates.io:sg-minter".to_string(), "3.0.0".to_string())), // refused: foreign identity
+        Some(("crates.io:cw4-group".to_string(), code.to_string())),
+    ]
+}
+
+/// histories in which migrations sit between funding, group changes, admin changes and
+/// distributions, on both instantiate paths
+fn migration_corpus(code: &str) -> Vec<Case> {
+    let mut c = vec![];
+    let g3 = vec![mem(1, 50), mem(2, 30), mem(3, 20)];
+    let older = (SPLITS_NAME, "3.9.0");
+    let newer_s = {
+        let sv = semver::Version::parse(code).unwrap();
+        format!("{}.{}.{}", sv.major, sv.minor + 1, 0)
+    };
+    for mode in [Mode::Existing, Mode::Reply] {
+        // admin set: a migration must not open distribution to members, nor move a coin
+        c.push(hist(mode, some(ADMIN), g3.clone(), vec![
+            dep(2, 1000), migr(WASM_ADMIN, Some(older)), dist(&member_name(1), None), dist(STRANGER, None), dist(ADMIN, None),
+            dep(2, 555), migr(WASM_ADMIN, Some((SPLITS_NAME, code))), dist(&member_name(2), Some(vec![2])), dist(ADMIN, Some(vec![2])),
+        ]));
+        // no admin: members keep the right, outsiders do not get it
+        c.push(hist(mode, None, g3.clone(), vec![
+            dep(2, 1000), migr(WASM_ADMIN, Some((SPLITS_NAME, "0.1.0"))), dist(STRANGER, None), dist(ADMIN, None), dist(&member_name(3), None),
+            dep(0, 321), migr(WASM_ADMIN, None), dist(&member_name(1), None),
+        ]));
+        // who may migrate, and refused stored pairs: nothing moves either way
+        c.push(hist(mode, some(ADMIN), g3.clone(), vec![
+            dep(2, 1000), migr(STRANGER, Some(older)), migr(GADMIN, Some(older)), migr(&member_name(1), Some(older)), migr(ADMIN2, None),
+            migr(WASM_ADMIN, Some((SPLITS_NAME, &newer_s))), migr(WASM_ADMIN, Some(("crates.io:sg-minter", "3.0.0"))), migr(WASM_ADMIN, Some((SPLITS_NAME, "x.y.z"))),
+            dist(ADMIN, None), migr(WASM_ADMIN, Some((SPLITS_NAME, "2.4.0"))), dep(2, 77), dist(ADMIN, None),
+        ]));
+        // group changes around a migration: shares follow the CURRENT weights
+        c.push(hist(mode, some(ADMIN), g3.clone(), vec![
+            dep(2, 1000), upd(vec![mem(1, 1), mem(4, 9)], vec![member_name(2)]), migr(WASM_ADMIN, Some(older)), dist(ADMIN, None),
+            upd(vec![mem(2, 5)], vec![]), dep(2, 1000), migr(WASM_ADMIN, Some((SPLITS_NAME, code))), dist(ADMIN, None),
+            upd(vec![], vec![member_name(1), member_name(4)]), migr(WASM_ADMIN, None), dep(1, 50), dist(ADMIN, Some(vec![1, 2])),
+        ]));
+        // admin hand-over / renounce around a migration
+        c.push(hist(mode, some(ADMIN), g3.clone(), vec![
+            dep(2, 600), Op::UpdateAdmin { sender: ADMIN.into(), new_admin: some(ADMIN2) }, migr(WASM_ADMIN, Some(older)),
+            dist(ADMIN, None), dist(&member_name(1), None), dist(ADMIN2, None),
+            dep(2, 600), Op::UpdateAdmin { sender: ADMIN2.into(), new_admin: None }, migr(WASM_ADMIN, Some((SPLITS_NAME, "3.0.0"))),
+            dist(ADMIN2, None), dist(&member_name(2), None),
+        ]));
+        // group sizes at the cap and the decoy's members as senders
+        c.push(hist(mode, some(ADMIN), group_of(25, |i| i % 3), vec![
+            dep(2, 5000), migr(WASM_ADMIN, Some(older)), dist(ADMIN2, None), dist(ADMIN, None),
+            upd(vec![mem(25, 1)], vec![]), migr(WASM_ADMIN, None), dep(2, 5000), dist(ADMIN, None),
+        ]));
+    }
+    c
 }
 
 fn corpus() -> Vec<Case> {
@@ -452,7 +605,7 @@ fn boundary(rng: &mut Rng) -> Vec<Case> {
     c
 }
 
-fn random_hist(rng: &mut Rng, pool: &[u128]) -> Case {
+fn random_hist(rng: &mut Rng, pool: &[u128], stored: &[Option<(String, String)>]) -> Case {
     let n = match rng.below(10) {
         0 => rng.range(26, 30),
         1 => 25,
@@ -473,6 +626,16 @@ fn random_hist(rng: &mut Rng, pool: &[u128]) -> Case {
     let mut supply = [0u128; 4];
     for _ in 0..nops {
         let w = total(&cur).max(1);
+        if rng.chance(1, 8) {
+            let who = match rng.below(10) {
+                0 => STRANGER.to_string(),
+                1 => GADMIN.to_string(),
+                2 => cur.get(rng.below(cur.len().max(1) as u64) as usize).map(|(a, _)| a.clone()).unwrap_or(ADMIN2.to_string()),
+                _ => WASM_ADMIN.to_string(),
+            };
+            ops.push(Op::Migrate { who, stored: rng.pick(stored).clone() });
+            continue;
+        }
         match rng.below(10) {
             0..=2 => {
                 let d = rng.below(4) as usize;
@@ -580,11 +743,14 @@ fn gen_cases(a: &Args) -> Vec<Case> {
         }
     }
     pool.extend([1u128 << 64, (1u128 << 64) - 1, (1u128 << 64) + 1, 1u128 << 100]);
+    let code = workspace_version();
+    let stored = stored_pool(&code);
     let mut cases = corpus();
+    cases.extend(migration_corpus(&code));
     cases.extend(boundary(&mut rng));
     let nrand = if a.thorough() { 4000 } else { 220 };
     for _ in 0..nrand {
-        cases.push(random_hist(&mut rng, &pool));
+        cases.push(random_hist(&mut rng, &pool, &stored));
     }
     cases
 }
@@ -647,7 +813,7 @@ pub fn run(a: &Args) {
     rep.rule = "histories over real cw4-group + sg-splits (+bank): corpus, guard-boundary probes (group sizes 0,1,24,25,26,29,30,31,33 on the instantiate and distribute paths, balances W-1/W/W+1/2W-1/2W/kW+r per denom, every sender role with and without admin, u64/u128 extremes, duplicated denoms), random histories of deposits/member updates/admin changes/distributions with explicit and implicit denom lists. evaluations = steps executed; non-trivial = distinct history in which at least one Distribute succeeded (coins actually moved).".into();
     // `evaluations` counts steps; the correspondence driver reports failures per case
     rep.notes.push(format!("{} cases (histories / instantiate probes), {} steps", coq_cases.len(), rep.evaluations));
-    out.write_cases("C15", "From LP Require Import Splits C15Corr.", "c15_case", "c15_check", &coq_cases, 6, &mut rep);
+    out.write_cases("C15", "From Coq Require Import String.\nFrom LP Require Import Splits SplitsMigrate C15Corr.", "c15_case", "c15_check", &coq_cases, 6, &mut rep);
     out.finish(&rep);
     println!("C15 harness: {} cases, {} steps, {} monitor violations", coq_cases.len(), rep.evaluations, nviol);
 }
